@@ -169,6 +169,9 @@ func (u *Unit) subRef(dt *structDT, field int, ref *Term) *Term {
 		u.m.UF(name+"_inv", SInt, SInt)
 		x := u.m.tb.BoundVar("r", SInt)
 		u.m.addAxiom(u.m.tb.Forall([]*Term{x}, u.m.tb.Eq(u.m.tb.App(name+"_inv", SInt, u.m.tb.App(name, SInt, x)), x)))
+		// the embedded object of the nil reference is the nil reference (ghost reads
+		// through nil yield zero values, see loadField)
+		u.m.addAxiom(u.m.tb.Eq(u.m.tb.App(name, SInt, u.m.tb.Int(0)), u.m.tb.Int(0)))
 	}
 	r := u.m.tb.App(name, SInt, ref)
 	if !u.quiet && !r.bound {
